@@ -120,7 +120,7 @@ class Prop:
             caps.append(('gr', rng.choice([0, 4, 8, 12]), rng.choice([0, 90, 4095]),
                          [(rng.choice(FAMS), rng.choice([0, 128])) for _ in range(rng.choice([0, 1, 2, 3]))]))
         for _ in range(rng.choice([0, 1, 1, 2]) if rng.random() < 0.6 else 0):
-            caps.append(('llgr', [(rng.choice(FAMS), rng.choice([0, 128]), rng.choice([0, 0, 60, 16777215]))
+            caps.append(('llgr', [(rng.choice(FAMS), rng.choice([0, 128]), rng.choice([0, 0, 1, 60, 16777215]))
                                   for _ in range(rng.choice([0, 1, 2, 3]))]))
         rng.shuffle(caps)
         return caps
